@@ -892,6 +892,7 @@ impl<'b> InnerBucket<'b> {
                             Ok(i) => i,
                             _ => panic!("child branch not found"),
                         };
+                        let merged_right = index == 0 && node.data.len() > 0 && branches.len() > 1;
                         if node.data.len() > 0 && branches.len() > 1 {
                             // add that child's data to a sibling node
                             let sibling_page = if index == 0 {
@@ -909,6 +910,12 @@ impl<'b> InnerBucket<'b> {
                             let mut sibling = sibling.borrow_mut();
                             // Copy this node's data over to it's sibling
                             sibling.data.merge(&mut node.data);
+                            if index == 0 {
+                                // The right sibling now starts with this node's keys, so it takes over this
+                                // node's place in the parent (see below): a search made later in this commit,
+                                // when the entries of nested buckets are rewritten, must still find those keys.
+                                sibling.original_key = node.original_key.clone();
+                            }
                             if !node.children.is_empty() {
                                 // Move all children nodes over to that sibling too
                                 for child in node.children.iter() {
@@ -924,7 +931,11 @@ impl<'b> InnerBucket<'b> {
                         node.deleted = true;
                         if let NodeData::Branches(branches) = &mut parent.data {
                             // remove the child from this node
-                            branches.remove(index);
+                            let removed = branches.remove(index);
+                            if merged_right {
+                                // its data went to the right sibling, which is now the first child
+                                branches[0].key = removed.key;
+                            }
                         }
                         if let Some(i) = parent.children.iter().position(|x| *x == node.id) {
                             parent.children.remove(i);
